@@ -27,8 +27,8 @@ def _gen_rules_ops():
 
 GEN = [_gen_rules_ops]
 MANIFEST = {
-    "text": "Proof on a Lean model of flippers (single/dual wound, with/without EOS switch, software EOS repulse or a platform that repulses in hardware, power_setting_name), autofire coils and kickbacks (timeout protection, re-enable delay, ball search, delayed pulse rule, reverse_switch, switch_overwrite / coil_overwrite) writing and clearing rows of a platform rule table keyed by (switch, coil), every row carrying the settings it is written with (invert, debounce, pulse ms, pulse power, hold power, recycle, delay, hardware repulse settings - selected from the overwrites and the coil / switch defaults inside the model): for every configuration whose rule keys are pairwise distinct and every sequence of enable/disable/sw_flip/sw_release/ball-search/switch/hit/lifecycle-event/clock/power-setting ops, the table holds exactly the rules of the enabled devices, each key once, with exactly the configured settings (rule_content_exact; a power-scaled pulse uses the setting sampled when the device was enabled), and every auxiliary switch handler belongs to an enabled device; enable and disable are idempotent; after an event listed in the disable events of every device and in no enable events (ball_will_end, service_mode_entered by default; tilt, slam tilt and game end reach ball_will_end through the real game) table and handlers are empty, no coil is energised and every device stays disabled until something enables one; after a disable no re-enable delay is pending and the device stays disabled through any later ops that do not enable it. In every reachable state (any configuration, any interleaving of button / EOS / enable / disable / timer ops, also after the EOS has closed again) a coil energised by a software command is owed to the sw_flipped / repulse-enabled flag of an enabled flipper, so no coil is energised on behalf of a disabled flipper. The five handlers of SoftwareEosRepulseManager are translated from platform_controller.py on every check (Gen/RulesOps.lean, stateful deep embedding Model/PyStore.lean) and proved to do exactly what the hand model's transitions do (eos_manager_refines_source). The rest of the model is tied to flipper.py/autofire.py/kickback.py/platform_controller.py/virtual.py by a correspondence run on real devices of a real machine (with and without a running game) after every op, including the settings every rule setter of the platform was called with; the oracle checks the platform's rules dict (presence and settings) and the registered switch handlers against the enabled devices on every op.",
-    "note": "Trusted: Lean kernel + {propext, Classical.choice, Quot.sound}; the hand-written model Model/Rules.lean (validated by differential runs; its software-EOS-repulse transitions additionally by the translator tie: translate/rules_eff.py, the interpreter Model/PyStore.lean and the 40-line meaning function Model/RulesGen.lean applyMgr); the virtual platform's rules dict stands for the hardware (real platforms' own set/clear implementations are not covered; a delayed-pulse rule setter and the feature flag hardware_eos_repulse are supplied by the harness, as no shipped virtual platform has them); game flow (which lifecycle events a tilt / drain / game end posts) is taken from the real game and fed to the model as events; asyncio timers via the repo's TimeTravelLoop. Assumes devices do not share a (switch, coil) pair and kickback switches are not shared. AutofireCoil.enable/disable are translated too (Gen/RulesOps.lean) but not yet proved against the model. Three defects fixed earlier (half-installed flipper after a refused rule, autofire enabled without a rule, software EOS repulse leaving the coil on after disable).",
+    "text": "Proof on a Lean model of flippers (single/dual wound, with/without EOS switch, software EOS repulse or a platform that repulses in hardware, power_setting_name), autofire coils and kickbacks (timeout protection, re-enable delay, ball search, delayed pulse rule, reverse_switch, switch_overwrite / coil_overwrite) writing and clearing rows of a platform rule table keyed by (switch, coil), every row carrying the settings it is written with (invert, debounce, pulse ms, pulse power, hold power, recycle, delay, hardware repulse settings - selected from the overwrites and the coil / switch defaults inside the model): for every configuration whose rule keys are pairwise distinct and every sequence of enable/disable/sw_flip/sw_release/ball-search/switch/hit/lifecycle-event/clock/power-setting ops, the table holds exactly the rules of the enabled devices, each key once, with exactly the configured settings (rule_content_exact; a power-scaled pulse uses the setting sampled when the device was enabled), and every auxiliary switch handler belongs to an enabled device; enable and disable are idempotent; after an event listed in the disable events of every device and in no enable events (ball_will_end, service_mode_entered by default; tilt, slam tilt and game end reach ball_will_end through the real game) table and handlers are empty, no coil is energised and every device stays disabled until something enables one; after a disable no re-enable delay is pending and the device stays disabled through any later ops that do not enable it. In every reachable state (any configuration, any interleaving of button / EOS / enable / disable / timer ops, also after the EOS has closed again) a coil energised by a software command is owed to the sw_flipped / repulse-enabled flag of an enabled flipper, so no coil is energised on behalf of a disabled flipper. The five handlers of SoftwareEosRepulseManager are translated from platform_controller.py on every check (Gen/RulesOps.lean, stateful deep embedding Model/PyStore.lean) and proved to do exactly what the hand model's transitions do (eos_manager_refines_source). AutofireCoil.enable and AutofireCoil.disable are translated from autofire.py the same way and proved to do exactly what the model's enableDev / disableDev do for an autofire coil or kickback whose rule the platform accepts, including the selection of recycle / debounce / invert / pulse settings and of the plain or delayed rule setter (autofire_refines_source). The rest of the model is tied to flipper.py/autofire.py/kickback.py/platform_controller.py/virtual.py by a correspondence run on real devices of a real machine (with and without a running game) after every op, including the settings every rule setter of the platform was called with; the oracle checks the platform's rules dict (presence and settings) and the registered switch handlers against the enabled devices on every op.",
+    "note": "Trusted: Lean kernel + {propext, Classical.choice, Quot.sound}; the hand-written model Model/Rules.lean (validated by differential runs; its software-EOS-repulse transitions additionally by the translator tie: translate/rules_eff.py, the interpreter Model/PyStore.lean and the 40-line meaning function Model/RulesGen.lean applyMgr); the virtual platform's rules dict stands for the hardware (real platforms' own set/clear implementations are not covered; a delayed-pulse rule setter and the feature flag hardware_eos_repulse are supplied by the harness, as no shipped virtual platform has them); game flow (which lifecycle events a tilt / drain / game end posts) is taken from the real game and fed to the model as events; asyncio timers via the repo's TimeTravelLoop. Assumes devices do not share a (switch, coil) pair and kickback switches are not shared. AutofireCoil.enable/disable are translated too (Gen/RulesOps.lean) and proved against the model (autofire_refines_source; meaning function Model/RulesGen.lean applyAf, ~45 lines: the row a rule setter writes for the arguments it is called with, clear_hw_rule(self._rule) = clearRules, delay.remove); a rule setter that raises (coil limits, unsupported platform) is covered by the correspondence only (the translation assumes collaborators answer). Three defects fixed earlier (half-installed flipper after a refused rule, autofire enabled without a rule, software EOS repulse leaving the coil on after disable).",
     "technique": "Lean 4 theorems (invariant + induction over all op sequences) on a hand model + translated manager handlers proved equal to the model's transitions + differential correspondence and rule-table / rule-content oracle on real devices",
     "translated": True,
 }
